@@ -27,6 +27,7 @@ var files = []genFile{
 	{"Opcodes.lean", genOpcodes},
 	{"AbortOps.lean", genAbortOps},
 	{"VmFields.lean", genVmFields},
+	{"Limits.lean", genLimits},
 	{"Adapters.lean", genAdapters},
 	{"EncTags.lean", genEncTags},
 	{"EncBuiltins.lean", genEncBuiltins},
